@@ -223,10 +223,13 @@ def _has_same_chain_twice(op):
     return dup[0]
 
 
-def sec_random(chk):
+NPART = 8            # the random trees are generated in NPART independent streams (sections run in parallel processes)
+
+
+def _random_part(chk, part):
     import nifty.cl as ift
-    count = 40 if chk.tier == "quick" else 400
-    rnd = random.Random(1000 + chk.seed)
+    count = (40 if chk.tier == "quick" else 400) // NPART
+    rnd = random.Random(1000 + chk.seed + 7919 * part)
     with objx.patched():
         W = MultiWorld(ift, ("a", "b", "c"), n=N, sign="real")
         done = skipped = 0
@@ -238,7 +241,7 @@ def sec_random(chk):
                 continue
             if _has_same_chain_twice(op):
                 skipped += 1        # counted only: the same chain object sits in two slots of the tree (edited in place by the optimiser)
-            _check_tree(chk, W, f"#{done} {d}", op, "random")
+            _check_tree(chk, W, f"#{part}.{done} {d}", op, "random")
             done += 1
         chk.note(f"random trees: {done} checked, {skipped} of them with the same leaf-chain object in two slots of the tree")
 
@@ -258,4 +261,11 @@ def _native(ob):
 
 REPLAY = {"same_chain_twice": _native, "nested shared subtrees": _native, "difference of partially common chains": _native}
 
-SECTIONS = [sec_catalogue, sec_same_chain_twice, sec_random]
+def _mk_random(part):
+    def sec(chk):
+        return _random_part(chk, part)
+    sec.__name__ = f"sec_random_{part}"
+    return sec
+
+
+SECTIONS = [sec_catalogue, sec_same_chain_twice] + [_mk_random(k) for k in range(NPART)]
